@@ -30,6 +30,7 @@ type RemoteCase struct {
 	Desc    RNode             `json:"desc"`
 	LinkErr string            `json:"linkerr"`           // "" = link healthy
 	Names   map[string]string `json:"names,omitempty"`   // dotted field path -> function name seen on the wire
+	E2E     map[string]string `json:"e2e,omitempty"`     // dotted field path -> path of the method that ran on a real peer
 }
 
 var ctxT = reflect.TypeOf((*context.Context)(nil)).Elem()
@@ -220,7 +221,130 @@ func runRemote[R any](name string) RemoteCase {
 	return rc
 }
 
+// ---- end to end: every stub of a valid definition is called against a real peer whose object graph
+// mirrors the definition with sub-objects held by value and by pointer ----
+type pathRec struct {
+	mu   chan struct{}
+	last []string
+}
+
+func newPathRec() *pathRec { p := &pathRec{mu: make(chan struct{}, 1)}; p.mu <- struct{}{}; return p }
+func (p *pathRec) hit(s string) { <-p.mu; p.last = append(p.last, s); p.mu <- struct{}{} }
+func (p *pathRec) take() []string {
+	<-p.mu
+	l := p.last
+	p.last = nil
+	p.mu <- struct{}{}
+	return l
+}
+
+type lv1 struct {
+	r *pathRec
+	N *lv1N // by pointer
+}
+type lv1N struct {
+	r *pathRec
+	D lv1D // by value
+}
+type lv1D struct{ r *pathRec }
+
+func (l *lv1) A(ctx context.Context, x int) (int, error) { l.r.hit("A"); return x, nil }
+func (l *lv1) Z(ctx context.Context) error               { l.r.hit("Z"); return nil }
+func (n *lv1N) B(ctx context.Context) error              { n.r.hit("N.B"); return nil }
+func (n *lv1N) E(ctx context.Context, x int) (int, error) { n.r.hit("N.E"); return x, nil }
+func (d lv1D) C(ctx context.Context, x int) (int, error) { d.r.hit("N.D.C"); return x, nil }
+func (d lv1D) C2(ctx context.Context) error              { d.r.hit("N.D.C2"); return nil }
+
+type lv2 struct {
+	r     *pathRec
+	First lv2F  // by value
+	Last  *lv2L // by pointer
+}
+type lv2F struct{ r *pathRec }
+type lv2L struct {
+	r  *pathRec
+	In *lv2I // by pointer below a pointer: three components, both intermediates pointer-held
+}
+type lv2I struct{ r *pathRec }
+
+func (l *lv2) Mid(ctx context.Context, x int) (int, error) { l.r.hit("Mid"); return x, nil }
+func (l *lv2) After(ctx context.Context) error             { l.r.hit("After"); return nil }
+func (f lv2F) P(ctx context.Context) error                 { f.r.hit("First.P"); return nil }
+func (l *lv2L) Q(ctx context.Context, x int) (int, error)  { l.r.hit("Last.Q"); return x, nil }
+func (i *lv2I) R(ctx context.Context) error                { i.r.hit("Last.In.R"); return nil }
+
+func runRemoteE2E[R any](name string, local any, rec *pathRec) RemoteCase {
+	var zero R
+	rc := RemoteCase{Def: name, Desc: describeRemote("", reflect.TypeOf(zero)), E2E: map[string]string{}}
+	caller := rpc.NewRegistry[R, json.RawMessage](struct{}{}, nil)
+	callee := rpc.NewRegistry[struct{}, json.RawMessage](local, nil)
+	ctx, cancel := context.WithCancel(context.Background())
+	defer cancel()
+	c := jsonRawCodec()
+	abReq, abRes, baReq, baRes := newFrameQ[json.RawMessage](), newFrameQ[json.RawMessage](), newFrameQ[json.RawMessage](), newFrameQ[json.RawMessage]()
+	e1, e2 := make(chan error, 1), make(chan error, 1)
+	go func() { e1 <- caller.LinkMessage(ctx, abReq.Put, abRes.Put, baReq.Get, baRes.Get, c.Marshal, c.Unmarshal, nil) }()
+	go func() { e2 <- callee.LinkMessage(ctx, baReq.Put, baRes.Put, abReq.Get, abRes.Get, c.Marshal, c.Unmarshal, nil) }()
+	var remote R
+	got := false
+	deadline := time.Now().Add(2 * time.Second)
+	for time.Now().Before(deadline) && !got {
+		caller.ForRemotes(func(id string, r R) error { remote, got = r, true; return nil })
+		time.Sleep(200 * time.Microsecond)
+	}
+	if !got {
+		rc.LinkErr = "NO-REMOTE"
+		return rc
+	}
+	var walk func(v reflect.Value, prefix string)
+	walk = func(v reflect.Value, prefix string) {
+		for i := 0; i < v.NumField(); i++ {
+			f := v.Field(i)
+			path := prefix + v.Type().Field(i).Name
+			switch f.Kind() {
+			case reflect.Struct:
+				walk(f, path+".")
+			case reflect.Func:
+				if f.IsNil() {
+					rc.E2E[path] = "NIL-STUB"
+					continue
+				}
+				cctx, ccancel := context.WithTimeout(context.Background(), 2*time.Second)
+				args := []reflect.Value{reflect.ValueOf(cctx)}
+				for k := 1; k < f.Type().NumIn(); k++ {
+					args = append(args, reflect.Zero(f.Type().In(k)))
+				}
+				var out []reflect.Value
+				func() { defer func() { recover() }(); out = f.Call(args) }()
+				ccancel()
+				ran := strings.Join(rec.take(), ",")
+				if len(out) > 0 && !out[len(out)-1].IsNil() {
+					ran += " error: " + out[len(out)-1].Interface().(error).Error()
+				}
+				rc.E2E[path] = ran
+			}
+		}
+	}
+	walk(reflect.ValueOf(remote), "")
+	cancel()
+	for _, q := range []*frameQ[json.RawMessage]{abReq, abRes, baReq, baRes} {
+		q.Close(errors.New("closed"))
+	}
+	for _, e := range []chan error{e1, e2} {
+		select {
+		case <-e:
+		case <-time.After(2 * time.Second):
+		}
+	}
+	return rc
+}
+
 func RunRemotes() []RemoteCase {
+	r1, r2 := newPathRec(), newPathRec()
+	e2e := []RemoteCase{
+		runRemoteE2E[rdValid1]("valid1/e2e", &lv1{r: r1, N: &lv1N{r: r1, D: lv1D{r1}}}, r1),
+		runRemoteE2E[rdValid2]("valid2/e2e", &lv2{r: r2, First: lv2F{r2}, Last: &lv2L{r: r2, In: &lv2I{r2}}}, r2),
+	}
 	out := []RemoteCase{
 		runRemote[rdValid1]("valid1"), runRemote[rdValid2]("valid2"), runRemote[rdEmpty]("empty"), runRemote[rdNoFuncs]("nofuncs"),
 		runRemote[rdBadRet0]("badret0"), runRemote[rdBadRet3]("badret3"), runRemote[rdBadRetNoErr]("badret-noerr"),
@@ -228,6 +352,7 @@ func RunRemotes() []RemoteCase {
 		runRemote[rdTwoBad]("twobad"), runRemote[rdTwoBad2]("twobad2"), runRemote[rdBothBad]("bothbad"), runRemote[rdChan]("chan-map-ptr"),
 		runRemote[sysRemote]("sysremote"), runRemote[epRemote]("epremote"),
 	}
+	out = append(out, e2e...)
 	sort.Slice(out, func(i, j int) bool { return out[i].Def < out[j].Def })
 	return out
 }
